@@ -230,11 +230,13 @@ func (am *AccountingManager) Stop() error {
 	if am.config.DrainOnShutdown {
 		am.drainAllSessions()
 	}
+	verifCrashPoint("shutdown.drained")
 
 	// Persist pending records before shutdown
 	if err := am.persistPendingRecords(); err != nil {
 		am.logger.Warn("Failed to persist pending records", zap.Error(err))
 	}
+	verifCrashPoint("shutdown.persisted")
 
 	// Cancel context and wait for workers
 	am.cancel()
@@ -265,6 +267,7 @@ func (am *AccountingManager) StartSession(session *AccountingSession) error {
 
 	am.sessions[session.SessionID] = session
 	am.sessionsMu.Unlock()
+	verifCrashPoint("start.registered")
 
 	// Send Accounting-Start
 	req := &AcctRequest{
@@ -290,9 +293,11 @@ func (am *AccountingManager) StartSession(session *AccountingSession) error {
 			zap.Error(err),
 		)
 	}
+	verifCrashPoint("start.sent")
 
 	// Persist session for crash recovery
 	am.persistActiveSession(session)
+	verifCrashPoint("start.persisted")
 
 	am.logger.Info("Accounting started for session",
 		zap.String("session_id", session.SessionID),
@@ -315,9 +320,11 @@ func (am *AccountingManager) StopSession(sessionID string, terminateCause uint32
 	session.StopPending = true
 	session.StopCause = terminateCause
 	am.sessionsMu.Unlock()
+	verifCrashPoint("stop.marked")
 
 	// Persist state before attempting stop
 	am.persistActiveSession(session)
+	verifCrashPoint("stop.persisted")
 
 	// Send Accounting-Stop
 	if err := am.sendAccountingStop(session, terminateCause); err != nil {
@@ -326,14 +333,17 @@ func (am *AccountingManager) StopSession(sessionID string, terminateCause uint32
 			zap.Error(err),
 		)
 	}
+	verifCrashPoint("stop.sent")
 
 	// Remove from active sessions
 	am.sessionsMu.Lock()
 	delete(am.sessions, sessionID)
 	am.sessionsMu.Unlock()
+	verifCrashPoint("stop.unregistered")
 
 	// Remove persisted session
 	am.removePersistedSession(sessionID)
+	verifCrashPoint("stop.unpersisted")
 
 	return nil
 }
@@ -473,6 +483,7 @@ func (am *AccountingManager) sendInterimUpdate(session *AccountingSession) {
 	defer cancel()
 
 	err := am.client.SendAccounting(ctx, req)
+	verifCrashPoint("interim.sent")
 
 	am.sessionsMu.Lock()
 	if err != nil {
@@ -539,6 +550,7 @@ func (am *AccountingManager) queuePendingRecord(req *AcctRequest) {
 	am.pendingRecords[record.ID] = record
 	atomic.StoreUint64(&am.pendingQueueDepth, uint64(len(am.pendingRecords)))
 	am.pendingMu.Unlock()
+	verifCrashPoint("queue.added")
 
 	select {
 	case am.pendingQueue <- record:
@@ -572,10 +584,13 @@ func (am *AccountingManager) pendingRecordProcessor() {
 
 // processPendingRecord attempts to send a pending record
 func (am *AccountingManager) processPendingRecord(record *PendingAcctRecord) {
+	verifCrashPoint("proc.begin")
+	defer verifCrashPoint("proc.end")
 	ctx, cancel := context.WithTimeout(am.ctx, 5*time.Second)
 	defer cancel()
 
 	err := am.client.SendAccounting(ctx, record.Request)
+	verifCrashPoint("proc.sent")
 	if err == nil {
 		// Success - remove from pending
 		am.pendingMu.Lock()
@@ -805,6 +820,7 @@ func (am *AccountingManager) recoverOrphanedSessions() error {
 			os.Remove(path) // Remove corrupt file
 			continue
 		}
+		verifCrashPoint("recover.read")
 
 		// Send Accounting-Stop for orphaned session
 		am.logger.Info("Recovering orphaned session",
@@ -837,9 +853,11 @@ func (am *AccountingManager) recoverOrphanedSessions() error {
 			am.queuePendingRecord(req)
 		}
 		cancel()
+		verifCrashPoint("recover.sent")
 
 		atomic.AddUint64(&am.orphanedRecovered, 1)
 		os.Remove(path)
+		verifCrashPoint("recover.removed")
 	}
 
 	// Recover pending records
@@ -867,9 +885,11 @@ func (am *AccountingManager) recoverOrphanedSessions() error {
 	}
 	atomic.StoreUint64(&am.pendingQueueDepth, uint64(len(am.pendingRecords)))
 	am.pendingMu.Unlock()
+	verifCrashPoint("recover.loaded")
 
 	am.logger.Info("Recovered pending accounting records", zap.Int("count", len(records)))
 	os.Remove(pendingPath)
+	verifCrashPoint("recover.pendingRemoved")
 
 	return nil
 }
